@@ -151,7 +151,7 @@ static inline void* gp_insert_cpp(const size_t elem_size, void* out, const size_
     memcpy(out, src1, pos * elem_size);
     memcpy((uint8_t*)out + pos * elem_size, src2, src2_length * elem_size);
     memcpy((uint8_t*)out + (pos + src2_length) * elem_size,
-        (uint8_t*)src1 + pos * src1_length,
+        (uint8_t*)src1 + pos * elem_size,
         (src1_length - pos) * elem_size);
     ((GPArrayHeader*)out - 1)->length = src1_length + src2_length;
     return out;
@@ -1915,7 +1915,7 @@ static inline void* gp_arr_insert_new11(
     memcpy(out, src1.data, pos * elem_size);
     memcpy((uint8_t*)out + pos * elem_size, src2.data, src2.length * elem_size);
     memcpy((uint8_t*)out + (pos + src2.length) * elem_size,
-        (uint8_t*)src1.data + pos * src1.length,
+        (uint8_t*)src1.data + pos * elem_size,
         (src1.length - pos) * elem_size);
     ((GPArrayHeader*)out - 1)->length = src1.length + src2.length;
     return out;
